@@ -1585,15 +1585,24 @@ func (r *Raft) appendEntries(rpc RPC, a *AppendEntriesRequest) {
 		metrics.MeasureSince([]string{"raft", "rpc", "appendEntries", "storeLogs"}, start)
 	}
 
-	// Update the commit index
+	// Update the commit index. Only the prefix of our log that this request has
+	// verified against the leader's log (the previous entry plus the entries it
+	// carried) is known to match the leader; anything we hold beyond that may be
+	// a stale suffix from an earlier term and must not be treated as committed.
 	if a.LeaderCommitIndex > 0 && a.LeaderCommitIndex > r.getCommitIndex() {
 		start := time.Now()
-		idx := min(a.LeaderCommitIndex, r.getLastIndex())
-		r.setCommitIndex(idx)
-		if r.configurations.latestIndex <= idx {
-			r.setCommittedConfiguration(r.configurations.latest, r.configurations.latestIndex)
+		lastVerified := a.PrevLogEntry
+		if n := len(a.Entries); n > 0 {
+			lastVerified = a.Entries[n-1].Index
 		}
-		r.processLogs(idx, nil)
+		idx := min(a.LeaderCommitIndex, min(r.getLastIndex(), lastVerified))
+		if idx > r.getCommitIndex() {
+			r.setCommitIndex(idx)
+			if r.configurations.latestIndex <= idx {
+				r.setCommittedConfiguration(r.configurations.latest, r.configurations.latestIndex)
+			}
+			r.processLogs(idx, nil)
+		}
 		metrics.MeasureSince([]string{"raft", "rpc", "appendEntries", "processLogs"}, start)
 	}
 
